@@ -16,6 +16,7 @@ mod gen_train;
 mod kytea;
 mod train;
 mod train_tags;
+mod traincli;
 mod model;
 mod pred;
 mod sent;
@@ -40,6 +41,7 @@ fn main() {
                 "C01" => gen_pred::gen_c01(&mut out, thorough, seed),
                 "C09" | "C10" | "C11" | "C12" => gen_train::gen(&mut out, family, thorough, seed),
                 "C20" => clicase::gen(&mut out, thorough, seed),
+                "TL" => traincli::gen(&mut out, thorough, seed),
                 "C19" => dict::gen(&mut out, thorough, seed),
                 "C17" => kytea::gen(&mut out, thorough, seed),
                 "C18" => gen_pred::gen_c18(&mut out, thorough, seed),
@@ -142,6 +144,7 @@ fn run_case(line: &str, fails: &mut Vec<(String, String)>, effective: &mut Optio
         ["E", ..] => pred::run_e(&toks, fails),
         ["BD", n, seed, ..] => pred::run_bd(n.parse().unwrap_or(1000), seed.parse().unwrap_or(1), fails),
         ["TR", ..] => train::run(&toks, fails, effective),
+        ["TL", ..] => traincli::run(&toks, fails),
         [k, ..] if matches!(*k, "KY" | "KYE" | "KYX") => kytea::run(&toks, fails),
         [k, ..] if matches!(*k, "RD" | "WJ" | "WP") => dict::run(&toks, fails),
         [k, ..] if matches!(*k, "CP" | "CE") => clicase::run(&toks, fails),
